@@ -130,7 +130,7 @@ void cif_pktitr_free(
 
 /* All uthash fatal errors arise from memory allocation failure */
 #undef uthash_fatal
-#define uthash_fatal(msg) FAIL(soft, CIF_MEMORY_ERROR)
+#define uthash_fatal(msg) FAIL(add, CIF_MEMORY_ERROR)
 
 int cif_pktitr_next_packet(
         cif_pktitr_tp *iterator,
@@ -251,16 +251,28 @@ int cif_pktitr_next_packet(
                             /* can't add new items to a dependent target packet */
                             FAIL(soft, CIF_ARGUMENT_ERROR);
                         } else {
+                            UChar *key_copy;
+
                             HASH_DEL(temp_packet->map.head, entry);
                             name_len = (size_t) U_BYTES(entry->key);
     
                             /* convert the entry to standalone, for compatibility with the packet */
-                            entry->key = cif_u_strdup(entry->key);
+                            key_copy = cif_u_strdup(entry->key);
     
-                            if (entry->key != NULL) {
+                            if (key_copy != NULL) {
                                 /* add the entry to the packet */
+                                entry->key = key_copy;
                                 HASH_ADD_KEYPTR(hh, (*packet)->map.head, entry->key, name_len, entry);
+                                continue;
+
+                                /* referenced by the HASH_ADD_KEYPTR macro: */
+                                FAILURE_HANDLER(add):
+                                CIF_HASH_ADD_UNDO(hh, (*packet)->map.head, entry);
+                                cif_map_entry_free_internal(entry, &((*packet)->map));
+                                DEFAULT_FAIL(soft);
                             } else {
+                                /* the entry no longer belongs to any packet */
+                                cif_map_entry_free_internal(entry, &(temp_packet->map));
                                 FAIL(soft, CIF_MEMORY_ERROR);
                             }
                         }
